@@ -110,6 +110,28 @@ def do_replay(path):
     return 1
 
 
+def contract_text(verus_results, oid):
+    """signature + contract clauses of an extracted function as they stand in the woven unit (for the evidence samples)"""
+    try:
+        u, fid_ = oid.split(' :: ', 1)
+        r = verus_results.get(u)
+        if not r:
+            return None
+        e = next((x for x in r.get('extracted', []) if x['id'] == fid_ and x['kind'] == 'fn'), None)
+        if not e:
+            return None
+        lines = open(r['woven']).read().split('\n')
+        lo, hi = e['woven_lines']
+        out = []
+        for ln in lines[lo - 1:hi]:
+            if ln.strip().startswith('{'):
+                break
+            out.append(ln.strip())
+        return ' '.join(out)[:900]
+    except Exception:
+        return None
+
+
 def run_property(prop, tier, seed, rebaseline=False, only_units=None):
     t0 = time.time()
     cfg = PROPS[prop]
@@ -425,7 +447,8 @@ def run_property(prop, tier, seed, rebaseline=False, only_units=None):
         'unit_wall_s': {**{u: r.get('wall_s') for u, r in verus_results.items()},
                         **{f'kani:{c}': i.get('wall_s') for c, i in kani_infos.items()}},
         'samples': [{'obligation': s['id'], 'engine': s['engine'], 'solver_ms': s.get('smt_ms'),
-                     'solver_s': s.get('time_s')} for s in samples] or
+                     'solver_s': s.get('time_s'), 'contract': contract_text(verus_results, s['id']),
+                     'bound': s.get('bound')} for s in samples] or
                    [{'obligation': b['id'], 'engine': b['engine'], 'bound': b.get('bound')} for b in bounded[:4]],
         'explanation': cfg.get('explanation', ''),
         'evaluations': max(1, len(obligations) + len(bounded)),
